@@ -23,16 +23,69 @@ class Refused(Exception):
     """the reference refuses the value (outside the encodable domain)"""
 
 
+class Num:
+    """a multi-octet big-endian number field inside a reference byte template.  Kept abstract so
+    that comparison with actual bytes is *linear* (sum of octets * 256^k == n) instead of a
+    div/mod chain, which z3 handles badly for 64-bit values."""
+    __slots__ = ('n', 'width', 'signed')
+
+    def __init__(self, n, width, signed):
+        self.n, self.width, self.signed = n, width, signed
+
+
 def u(n, width):
     """big-endian unsigned"""
-    return [(n // (256 ** (width - 1 - i))) % 256 for i in range(width)]
+    if width == 1:
+        return [n]
+    return [Num(n, width, False)]
 
 
 def s(n, width):
     """big-endian two's complement"""
-    if n < 0:
-        n = n + 256 ** width
-    return u(n, width)
+    if width == 1:
+        return [n + 256 if n < 0 else n]
+    return [Num(n, width, True)]
+
+
+def flatlen(tpl):
+    return sum(it.width if isinstance(it, Num) else 1 for it in tpl)
+
+
+def equal(actual, tpl):
+    """do the actual octets (sequence of ints 0..255) equal the reference template?"""
+    if len(actual) != flatlen(tpl):
+        return False
+    i = 0
+    for it in tpl:
+        if isinstance(it, Num):
+            v = 0
+            for k in range(it.width):
+                v = v * 256 + actual[i + k]
+            want = it.n
+            if it.signed and want < 0:
+                want = want + 256 ** it.width
+            if not (0 <= want < 256 ** it.width) or v != want:
+                return False
+            i += it.width
+        else:
+            if actual[i] != it:
+                return False
+            i += 1
+    return True
+
+
+def flatten(tpl):
+    """concrete octet list of a template (div/mod; for concrete use and small symbolic values)"""
+    out = []
+    for it in tpl:
+        if isinstance(it, Num):
+            n = it.n
+            if it.signed and n < 0:
+                n = n + 256 ** it.width
+            out = out + [(n // (256 ** (it.width - 1 - k))) % 256 for k in range(it.width)]
+        else:
+            out.append(it)
+    return out
 
 
 def utf8(text):
@@ -136,7 +189,7 @@ def array(items, legacy=False, single_bits=None, epoch_of=None):
     out = []
     for it in items:
         out = out + field_value(it, legacy, single_bits, epoch_of)
-    return u(len(out), 4) + out
+    return u(flatlen(out), 4) + out
 
 
 def table(t, legacy=False, single_bits=None, epoch_of=None):
@@ -146,11 +199,11 @@ def table(t, legacy=False, single_bits=None, epoch_of=None):
     out = []
     for k, v in pairs:
         out = out + shortstr(k) + field_value(v, legacy, single_bits, epoch_of)
-    return u(len(out), 4) + out
+    return u(flatlen(out), 4) + out
 
 
 def frame(ftype, channel, payload):
-    return [ftype] + u(channel, 2) + u(len(payload), 4) + payload + [FRAME_END]
+    return [ftype] + u(channel, 2) + u(flatlen(payload), 4) + payload + [FRAME_END]
 
 
 def arguments(spec_args, values, legacy=False, single_bits=None, epoch_of=None):
